@@ -13,9 +13,12 @@ package main
 
 import (
 	"fmt"
+	"os"
 	"reflect"
 	"runtime"
+	"strconv"
 	"strings"
+	"time"
 
 	rt "github.com/arnodel/golua/runtime"
 
@@ -374,7 +377,23 @@ type node struct {
 	model *refctx.Stack
 }
 
+// workerDeadline is the unix time after which the family's budget is spent
+// (the -deadline flag core passes to its workers; 0 = none).  core only looks
+// at it every 64th case, which is too coarse for cases that are searches.
+var workerDeadline = func() int64 {
+	for i, a := range os.Args {
+		if a == "-deadline" && i+1 < len(os.Args) {
+			d, _ := strconv.ParseInt(os.Args[i+1], 10, 64)
+			return d
+		}
+	}
+	return 0
+}()
+
+func pastDeadline() bool { return workerDeadline > 0 && time.Now().Unix() > workerDeadline }
+
 type searcher struct {
+	aborted bool              // budget spent in the middle of the case
 	viols  map[string]string // key -> detail (first = shortest history)
 	order  []string
 	states map[string]struct{}
@@ -408,7 +427,6 @@ func big64Overflows(a, b uint64) bool { return a+b < a }
 func qualifiers(pre *refctx.Stack, op refctx.Op) string {
 	top := pre.Top()
 	q := " top=" + top.Status.String()
-	defer func() { _ = q }()
 	lim := func(r int) string {
 		switch {
 		case !top.Hard[r].Inf:
@@ -602,6 +620,10 @@ func (s *searcher) run(prefix []uint16, more int, alphabet []uint16) {
 	for d := 0; d < more; d++ {
 		var nextFrontier []node
 		for _, n := range frontier {
+			if pastDeadline() {
+				s.aborted = true
+				return
+			}
 			for _, x := range alphabet {
 				if !n.model.Enabled(decode(x)) {
 					continue
@@ -627,6 +649,14 @@ func (s *searcher) run(prefix []uint16, more int, alphabet []uint16) {
 }
 
 func (s *searcher) outcome() core.Outcome {
+	if s.aborted {
+		// not an evaluation: the family is reported as not exhaustive
+		o := core.Outcome{Skipped: true}
+		for _, k := range s.order {
+			o.Viols = append(o.Viols, &core.Violation{Key: k, Detail: s.viols[k]})
+		}
+		return o
+	}
 	o := core.Outcome{NonTrivial: true, Sig: s.sig, States: uint64(len(s.states)), Trans: s.trans}
 	for _, k := range s.order {
 		o.Viols = append(o.Viols, &core.Violation{Key: k, Detail: s.viols[k]})
@@ -677,6 +707,9 @@ func stackFamily(name string, first, rest []uint16, plen, more int, budget int, 
 	return &core.Family{
 		Name: name, Size: size, BudgetSeconds: budget,
 		Run: func(i uint64) core.Outcome {
+			if pastDeadline() {
+				return core.Outcome{Skipped: true}
+			}
 			st, ops := get(i)
 			s := newSearcher()
 			s.run(append(startHist(st), ops...), more, rest)
@@ -698,15 +731,16 @@ func partAFamilies(tier string) []*core.Family {
 	}
 	if tier == "thorough" {
 		return []*core.Family{
-			stackFamily("A-full1-depth3", full, red, 1, 2, 300, false),
-			stackFamily("A-red-full2-depth2", red, full, 1, 1, 300, false),
-			stackFamily("A-reduced-depth5", red, red, 2, 3, 420, false),
-			stackFamily("A-reduced-depth6", red, red, 3, 3, 240, true),
+			stackFamily("A-full1-depth3", full, red, 1, 2, 240, false),
+			stackFamily("A-red1-full2-depth2", red, full, 1, 1, 120, false),
+			stackFamily("A-reduced-depth4", red, red, 2, 2, 240, false),
+			stackFamily("A-reduced-depth5", red, red, 2, 3, 330, true),
+			stackFamily("A-reduced-depth6", red, red, 3, 3, 200, true),
 		}
 	}
 	return []*core.Family{
 		stackFamily("A-full1-depth2", full, red, 1, 1, 60, false),
-		stackFamily("A-reduced-depth4", red, red, 2, 2, 90, false),
+		stackFamily("A-reduced-depth4", red, red, 2, 2, 100, false),
 	}
 }
 
